@@ -9,6 +9,44 @@ VERIF = os.path.dirname(os.path.dirname(os.path.abspath(__file__)))
 TECH = 'Lean 4 theorems on a hand-written model + differential correspondence check + property probe'
 NOTE = 'Trusted: Lean kernel + {propext, Classical.choice, Quot.sound} (audited per theorem on every run); the hand-written model is tied to the C++ by a seeded differential test, not by proof; '
 CLAIMED = {
+    'C17': ('proof', TECH,
+            'For EVERY interleaving of data stamps and heartbeats and every window W >= 1 (induction over event lists): the monitor\'s rate '
+            'is 0 until W+1 stamps and then W*1e9/(s_n - s_(n-W)) unless a heartbeat timed out since the last stamp; a heartbeat times out iff '
+            'a stamp exists and it is more than 0.5 s later, forcing the rate to 0, and otherwise changes nothing; the span is positive for '
+            'strictly increasing stamps; the rate check-up holds after every event a status/message/value consistent with that rate (ERROR / '
+            'no data before the first stamp, STALE / timeout / empty after a timeout, else the C18 classification of the current rate). '
+            'The literal constants (4, 64, 0.5 s) are regenerated from the source on every run and pinned by a theorem. '
+            'RomeaProofs/Properties/C17.lean; exact differential on event histories for RateMonitoring and both CheckupRate kinds.',
+            NOTE + 'the rate is symbolic in the theorems (W*1e9/sum over the reals), its double evaluation and the %g value string are '
+            'executed and compared; tools/props/c17.py regen() is a trusted regex translator.',
+            'DESIGN.md section 6, C17'),
+    'C08': ('proof', TECH,
+            'Model of the vendored nanoflann index (build: bounding box, divideTree, middleSplit, planeSplit; search: initial distances, '
+            'searchLevel with per-dimension bounds and pruning, KNNResultSet.addPoint). Theorems over any linearly ordered field: on every '
+            'well-formed tree the k-NN search equals the exhaustive scan (tie order included), returns exactly the k smallest squared '
+            'distances in ascending order each matching its index; the built tree is well-formed (build_wf) for every non-empty point set, '
+            'hence kdtree_correct with no residual hypothesis except no overflow of the sentinel. RomeaProofs/Properties/C08.lean. Tie: the '
+            'tree dumped through the public saveIndex is identical to the model\'s on every generated set, query results identical on '
+            'exact (dyadic/integer) inputs and within ulps otherwise; probe = exact brute force.',
+            NOTE + 'floating-point rounding of distances (pruning bound) is covered by the correspondence check and the brute-force probe only.',
+            'DESIGN.md section 6, C08'),
+    'C13': ('proof', TECH,
+            'Floor/ceil arithmetic of GridIndexMapping over the reals (r > 0, L <= U), per axis and for the d-dimensional product: index in '
+            'range, point within half a cell of its cell centre, centres map to their own index, spacing = resolution, first/last cells '
+            'cover the bounds, symmetric constructor = interval form. RomeaProofs/Properties/C13.lean (14 theorems). Bit-exact differential '
+            '(float and double, 2D/3D, bounds at multiples/half-multiples, points on borders +-1 ulp, up to 1e7 cells).',
+            NOTE + 'rounding of (p - origin)/resolution at exact cell borders is outside the theorems; the probe allows a few ulp of the '
+            'coordinate magnitude on the half-cell bound and demands idx < N exactly.',
+            'DESIGN.md section 6, C13'),
+    'C20': ('proof', TECH,
+            'Over the reals, any dimension: AABB <-> interval round trip, AABB/OBB containment characterisations, the AABB derived from an '
+            'OBB encloses it and is tight (each face attained at a corner) for orthogonal R, interval hull is the least enclosing interval, '
+            'point-set min/max/mean/scale are the true ones for every non-empty set given harmless initial constants (and a negative theorem '
+            'for an initial maximum above the data, the repaired min() defect), container extents. RomeaProofs/Properties/C20.lean. '
+            'Differential on boxes, rotations, point sets in every octant for all point types.',
+            NOTE + 'containment of points exactly on faces of rotated boxes is decided by rounding: either answer accepted inside the '
+            'rounding window only.',
+            'DESIGN.md section 6, C20'),
     'C16': ('proof', TECH,
             'For EVERY history of updates/resets, window size and multiplier (unbounded, by induction): the stored window is exactly the last '
             'min(n,W) truncated samples since the last reset, the running sums are their exact sums (no drift), availability <-> n >= W, the '
